@@ -215,7 +215,8 @@ def strategy(cell, tier):
     nstmt = 8 if cell["group"] != "construct" else 4
     # the second operand is independent, identical, or equal up to a relative / absolute offset (comparisons and closeness
     # tests are only informative for related pairs)
-    one = st.fixed_dictionaries({"a": gen.vec(("moderate",)), "b": gen.vec(("moderate",)), "beta3": gen.beta3(moderate=True),
+    # (every third first operand is space-like: the sign conventions of tau / abs / ** live in separate compiled overloads)
+    one = st.fixed_dictionaries({"a": gen.vec(("moderate", "moderate", "spacelike")), "b": gen.vec(("moderate",)), "beta3": gen.beta3(moderate=True),
                                  "rel": st.sampled_from(("independent", "independent", "independent", "equal", "near_rel", "near_abs")),
                                  "delta": st.sampled_from((1e-10, 1e-7, 3e-5, 2e-3, 0.03))})
     sc = st.fixed_dictionaries({
@@ -285,6 +286,11 @@ def _same(ctx, cell, what, a, b, variant, margin_ok=True):
     import vector
 
     isvec = lambda x: isinstance(x, vector.backends.object.VectorObject)  # noqa: E731
+    if isinstance(b, complex):
+        # the interpreter left the reals (Python's float ** fractional power of a negative norm): outside every backend's
+        # common domain - the NumPy and compiled backends give NaN there
+        ctx.exclude("interpreter_result_complex")
+        return None
     if isvec(a) != isvec(b):
         return f"compiled gives {type(a).__name__}, interpreter gives {type(b).__name__}"
     if isvec(a):
@@ -311,6 +317,8 @@ def _same(ctx, cell, what, a, b, variant, margin_ok=True):
             return ("bool", f"compiled {a} != interpreted {b}")
         return None
     try:
+        if isinstance(a, float) and isinstance(b, (float, numpy.floating)) and a != a and b != b:
+            return None  # NaN on both sides (a quantity undefined for this operand, e.g. gamma of a space-like vector)
         if "deltaangle" in str(what):
             # acos is ill-conditioned at +-1: nearly (anti)parallel operands agree in the cosine
             import math
